@@ -358,6 +358,14 @@ pub fn generate(rng: &mut Rng, thorough: bool) -> Vec<Case> {
         cs.push(Case::new(601, vec![vec![0, 0, *m], vec![0, 5, 1, 2], vec![]], "fin-inside-frame"));
     }
     cs.push(Case::new(601, vec![vec![0, 0, 7], b2a(&raw_frame(0x21, &[7])), vec![]], "grease-then-fin"));
+    // an unknown frame cut off by FIN after 0, 256, 512 (the skip loop's chunk size) and 100 bytes of
+    // its 600-byte payload: a truncated frame is a protocol failure wherever the cut falls
+    for sent in [0usize, 100, 256, 512] {
+        let mut b = enc_varint(0x2f);
+        b.extend(enc_varint(600));
+        b.extend(vec![0x11u8; sent]);
+        cs.push(Case::new(601, vec![vec![0, 0, 7], b2a(&b), vec![]], "fin-inside-unknown-frame"));
+    }
     // malformed capsules
     let mk = |body: &[u8]| -> Vec<u8> { let mut c = enc_varint(0x2843); c.extend(enc_varint(body.len() as u64)); c.extend(body); raw_frame(0, &c) };
     cs.push(Case::new(601, vec![vec![3, 0, 7], b2a(&mk(&[0, 0, 1])), vec![]], "capsule-too-short"));
